@@ -7,7 +7,7 @@ EXPLANATION = ('C14: real Integrate_MC_Brute_Force / Miser / Integrate_MC_Vegas 
                'history independence by running the observed call from a fresh state and after a different earlier call (function-local statics carried over in the interpreter memory) and comparing sample points, recursion arguments and results; '
                'Vegas re-entered on an ARBITRARY valid grid samples inside the region (all strata, edge draws) and the real Rebin maps every valid grid and all positive densities to a valid grid - together an induction over Vegas iterations for the inside-the-region clause.')
 BOUNDS = {'quick': {'dims': [1, 2], 'plain_calls': 3, 'vegas_calls': 4, 'rebin': [(2, 2), (3, 3), (2, 3), (3, 2)]}, 'thorough': {'dims': [1, 2, 3], 'plain_calls': 4, 'vegas_calls': 8, 'rebin': [(2, 2), (3, 3), (4, 4), (2, 3), (3, 2), (3, 4), (4, 3), (5, 5)]}}
-NOT_DECIDED = ['the 6-sigma accuracy clause (statistics)', 'Vegas iterations >= 2 and the grid refinement (pow/log on symbolic densities, data-dependent while loop over 50 bins): the first iteration is cut after its sampling loop', 'the distribution of the random stream']
+NOT_DECIDED = ['the 6-sigma accuracy clause (statistics)', 'the VALUES Vegas computes from iteration 2 on (weights and smoothed densities go through pow/log): only the inside-the-region clause is carried over all iterations, by induction (arbitrary valid grid + Rebin keeps grids valid, for bin counts in the bound; that the smoothed densities handed to Rebin are positive is assumed)', 'the distribution of the random stream']
 ASSUMPTIONS = ['doubles exact reals', 'std::random_device/mt19937 are not consulted: every draw goes through Sample_Uniform, which is replaced by the stream', 'region lower < upper per axis, symbolic',
                'Miser split level and Vegas: the stream is scripted (two fixed sequences) because bin indices / side tests branch on every draw; region and integrand stay symbolic']
 
